@@ -100,6 +100,8 @@ class DSDLDefinition(ReadableDSDLFile):
         # operations should work with pure paths and not require filesystem access.
         # A relative path is relative to the current working directory unless proven otherwise (see INFERENCE 3).
         resolved_dsdl_path = dsdl_path.resolve(strict=False)
+        found_as_given = dsdl_path.is_absolute() or resolved_dsdl_path.exists()
+        lexical_match: Path | None = None
         for path_to_root in valid_dsdl_roots:
             # First we try the paths as-is. This is a purely lexical comparison, which is meaningless for "." and "..".
             if path_to_root.parts and ".." not in path_to_root.parts and ".." not in dsdl_path.parts:
@@ -108,11 +110,15 @@ class DSDLDefinition(ReadableDSDLFile):
                 except ValueError:
                     pass
                 else:
-                    return path_to_root
+                    if found_as_given:
+                        return path_to_root
+                    # An instance of the file that exists under a valid root is preferred (see INFERENCE 3);
+                    # the pure-path match is used only if there is none.
+                    lexical_match = lexical_match or path_to_root
             # then we try resolving both paths, which also covers an absolute target with a relative root and vice versa
             # (a relative target is only taken relative to the working directory if it exists there; see INFERENCE 3)
             path_to_root_resolved = path_to_root.resolve(strict=False)
-            if dsdl_path.is_absolute() or resolved_dsdl_path.exists():
+            if found_as_given:
                 try:
                     _ = resolved_dsdl_path.relative_to(path_to_root_resolved).parent
                 except ValueError:
@@ -138,6 +144,8 @@ class DSDLDefinition(ReadableDSDLFile):
                     ):
                         return path_to_root_parent
                     path_to_root_parent = path_to_root_parent.parent
+        if lexical_match is not None:
+            return lexical_match
 
         # INFERENCE 4: A weaker, but valid inference is when the target path is a child of a known root folder name.
         # This is only allowed if dsdl roots are top-level namespace names and not paths.
